@@ -306,6 +306,7 @@ pub fn log_fault_case(lens: &[usize], shm: &Shm, clause: &str) {
                     sticky,
                     classes: class::WRITE | class::FLUSH,
                     fired: false,
+                    partial: 0,
                 });
                 st.calls = 0;
             }
@@ -954,6 +955,7 @@ pub fn table_fault_case(c: &TableCase, shm: &Shm, clause: &str) {
                 sticky: false,
                 classes: class::CREATE | class::WRITE | class::FLUSH,
                 fired: false,
+                partial: 0,
             });
             st.calls = 0;
         }
